@@ -12,7 +12,13 @@ from autobahn.wamp import message
 from autobahn.wamp.exception import InvalidUriError, ProtocolError  # noqa
 from autobahn.wamp.serializer import (CBORSerializer, JsonSerializer, MsgPackSerializer, UBJSONSerializer)
 
+def JsonHexSerializer(batched=False):
+    """JSON with the "0x.." hex convention for binaries (instead of the default \\0 + base64)"""
+    return JsonSerializer(batched=batched, use_binary_hex_encoding=True)
+
+
 SERS = {"json": JsonSerializer, "msgpack": MsgPackSerializer, "cbor": CBORSerializer, "ubjson": UBJSONSerializer}
+RT_SERS = dict(SERS, **{"json-hex": JsonHexSerializer})
 FF = [{"session": 1, "authid": "a", "authrole": "r"}]
 ROLES = {"subscriber": {"features": {"publisher_identification": True}}, "caller": {}}
 WROLES = {"broker": {"features": {"publisher_identification": True}}, "dealer": {}}
@@ -139,6 +145,14 @@ def run_cases(inp):
     import inspect as _inspect
     expanded = []
     for c in cases:
+        if c["what"] == "features":
+            roles = ("subscriber", "publisher", "caller", "callee") if c["t"] == "hello" else ("broker", "dealer")
+            for r in roles:
+                feats = [f for f in _inspect.signature(_role.ROLE_NAME_TO_CLASS[r].__init__).parameters if f not in ("self", "kwargs")]
+                for a, b in zip(feats, feats[1:]):
+                    expanded.append(dict(c, key="%s.%s,%s" % (r, a, b)))
+                expanded.append(dict(c, key="%s.%s" % (r, ",".join(feats))))
+            continue
         if c["what"] != "feature":
             expanded.append(c)
             continue
@@ -176,6 +190,16 @@ def run_cases(inp):
             d["roles"] = {r: {"features": {feat: v}}}
             raw[2] = d
             check = ("feature", r, feat, v)
+        elif c["what"] == "features":
+            r, fl = c["key"].split(".")
+            fl = fl.split(",")
+            d = copy.deepcopy(raw[2])
+            d["roles"] = {r: {"features": {f: True for f in fl}}}
+            raw[2] = d
+            check = ("features", r, fl)
+        elif c["what"] == "reqtype":
+            raw[1] = c["i"]
+            check = ("pos", 1, c["i"])
         elif c["what"] == "len":
             n = c["i"]
             if n < len(raw):
@@ -194,6 +218,9 @@ def run_cases(inp):
                 idem = o2 == "Message" and norm(m2.marshal()) == norm(out)
                 if check is None:
                     preserved = all(norm(out[i]) == norm(raw[i]) for i in range(min(len(raw), len(out)))) if c["what"] == "base" else True
+                elif check[0] == "features":
+                    f = out[2].get("roles", {}).get(check[1], {}).get("features", {})
+                    preserved = all(f.get(x) is True for x in check[2])
                 elif check[0] == "feature":
                     f = out[2].get("roles", {}).get(check[1], {}).get("features", {})
                     preserved = f.get(check[2]) == check[3] or (check[3] in (False, None) and check[2] not in f)
@@ -372,7 +399,7 @@ def run_roundtrip(inp, rng):
                                     binaryFlagOk=False, esc="valid variant rejected: %s %r" % (o, raw))])
                 continue
             msgs.append((raw, m))
-        for name, S in SERS.items():
+        for name, S in RT_SERS.items():
             for batched in (False, True):
                 ser = S(batched=batched)
                 groups = [[x] for x in msgs]
